@@ -17,7 +17,6 @@ import warnings
 import numpy as np
 
 from .. import data as D
-from .. import ref as R
 from ..core import viol
 
 ID = "C09"
@@ -33,6 +32,8 @@ RULE = (
     "(n//2 for an un-padded analytic signal); alpha<1 without PCA is enumerated only on fields with non-singular covariance (p <= that count). "
     "x sample labels of Y in {same, disjoint shift, shift by one (overlapping), same labels reversed} - samples are paired by position, so the same "
     "oracle applies unchanged (quick: real family, named classes + CPCCA at alpha (.3,.5),(1,0); thorough: every family, geometric spectrum, solver full). "
+    "Plus ill-scaled fields: the last 1-2 columns of one field are 1e-2/1e-4/1e-6 times the others (un-standardised; base spectrum within 5 %, "
+    "p <= n-1, PCA off/all) x all 16 alpha pairs + named classes (quick: 9x4|9x3 real, X field, k = rank; thorough: + 12x6|12x4, Complex*, Y field, two small columns, every k for the named classes and k in {1, rank} on the alpha grid). "
     "A case is non-trivial when the fit returned and the clauses (a) s>=0 descending, (b) S1^H S2/(N-1)=diag(s), (c) s/s_ref constant, "
     "(f) all reported correlations = numpy Pearson, in [-1,1], self=1 were evaluated on non-empty arrays; (d) MCA and (e) CCA clauses where alpha says so"
 )
@@ -41,13 +42,16 @@ ASSUMPTIONS = [
     "numpy.linalg.eigh / svd / qr and scipy.signal.hilbert are correct",
     "fields whose covariance is singular (p > n-1) are whitened (alpha<1) only after PCA, as the quantifier says ('p > n after PCA'); "
     "xeofs itself warns that the un-reduced case is ill-conditioned",
+    "the reference whitens through numpy's svd of the data matrix itself (accurate to eps relative to the largest singular value): directions with "
+    "relative singular value < 1e-10 are null (rank deficiency shows at ~1e-15), everything above - an ill-scaled group sits at 1e-6, relative variance 1e-12 - is kept; "
+    "tolerances are widened to 100 eps sqrt(cond(C)) (2e-8 at cond 1e12; xeofs measured <= 3e-10 there)",
     "standardize/use_coslat/weights are pinned off (C08 decides them); correction=None everywhere",
     "Hilbert* with padding='exp': the padded analytic signal of the reference PCs is produced by xeofs.utils.hilbert_transform "
     "(a column-wise linear map checked by C01); with padding=None it is scipy.signal.hilbert",
     "truncating PCA: squared-covariance fractions and correlation patterns are accepted against either the reduced or the unreduced field "
     "(the property does not say which one 'the cross-covariance' / 'X' is)",
 ]
-TALLY_KEYS = ("model", "pair", "pca", "solver", "spec", "labels")
+TALLY_KEYS = ("model", "pair", "pca", "solver", "spec", "labels", "illscale")
 TRUSTED = ["statsmodels import shim (/verif/shims) so that xeofs.cross constructors can be called; correction=None never reaches it"]
 MAX_REFUSED_FRACTION = 0.05
 
@@ -58,6 +62,12 @@ PAIRS_T = [(9, 4, 3), (6, 4, 6), (5, 6, 4), (12, 6, 4)]
 # sample coordinate labels of the Y field relative to X's: fit pairs samples by POSITION (lagged analysis X(t) vs Y(t+lag),
 # shifted dates), so nothing the property speaks of may depend on them
 LABELS = ("same", "disjoint", "overlap", "reversed")
+# ill-scaled fields: a group of columns of one field (K next to kg/kg) is 10^-e times the others, un-standardised. Such a
+# field is well conditioned in double precision (relative variance 10^-2e >= 1e-12): fractional whitening has to keep the
+# small directions, and CCA must not notice the units at all.  [field, e, number of small columns]
+ILL_Q = [["X", 2, 1], ["X", 4, 1], ["X", 6, 1]]
+ILL_T = ILL_Q + [["Y", 2, 1], ["Y", 4, 1], ["Y", 6, 1], ["X", 4, 2], ["X", 6, 2]]
+EPS = float(np.finfo(float).eps)
 
 
 # ----------------------------------------------------------------------------- alphabet
@@ -134,6 +144,30 @@ def y_labels(t, labels):
     raise ValueError(labels)
 
 
+def _ill_cases(tier):
+    """ill-scaled field x whitening degrees: only fields of full column rank (p <= n-1), PCA off or 'all' (a truncating
+    PCA would drop the small group), well-conditioned base spectrum (all singular values within 5 %), solver full."""
+    out = []
+    pairs = [(9, 4, 3)] if tier == "quick" else [(9, 4, 3), (12, 6, 4)]
+    fams = [("", False)] if tier == "quick" else [("", False), ("Complex", True)]
+    for (n, p1, p2) in pairs:
+        for (prefix, cplx) in fams:
+            for ill in (ILL_Q if tier == "quick" else ILL_T):
+                kinds = [("CPCCA", [ax, ay]) for ax in ALPHAS for ay in ALPHAS] + [(k, list(a)) for k, a in NAMED.items()]
+                for kind, alpha in kinds:
+                    for pca in ("off", "all"):
+                        rank = min(n - 1, p1, p2)
+                        for k in ([rank] if tier == "quick" else range(1, rank + 1)):
+                            if kind == "CPCCA" and k not in (1, rank):
+                                continue
+                            out.append(dict(
+                                model=prefix + kind, kind=kind, family=prefix or "real", cplx=cplx, pair="%dx%d|%dx%d" % (n, p1, n, p2),
+                                shape=[n, p1, p2], spec="near_equal_var", alpha=alpha, pca=pca, n_modes=k, solver="full", labels="same",
+                                illscale=ill,
+                            ))
+    return out
+
+
 def cases(tier, seed):
     out = []
     pairs = PAIRS_Q if tier == "quick" else PAIRS_T
@@ -183,7 +217,8 @@ def cases(tier, seed):
                                 if prefix == "Hilbert":
                                     c["padding"] = padding
                                 out.append(c)
-    out.sort(key=lambda c: (c["family"] != "real", c["kind"] != "MCA", c["shape"][0] != 9, c["pca"] != "off", c["labels"] != "same"))
+    out += _ill_cases(tier)
+    out.sort(key=lambda c: (c["family"] != "real", c["kind"] != "MCA", c["shape"][0] != 9, c["pca"] != "off", c["labels"] != "same", c.get("illscale") is not None))
     return out
 
 
@@ -222,17 +257,28 @@ def _analytic(Z, padding):
     return _hilbert_transform_with_padding(np.asarray(Z).real.copy(), padding=padding, decay_factor=0.2)
 
 
+NULL_CUT = 1e-10  # relative singular value of Z below which a direction is genuinely null (rank deficiency shows at ~1e-15;
+#                   the smallest real direction of the catalogue, an ill-scaled group at 1e-6, is four orders above the cut)
+
+
 def _whiten_ref(Z, a):
+    """Z C^((a-1)/2) with C = Z^H Z/(N-1), through the svd of Z itself: singular values of Z are accurate to eps relative to
+    the largest one, so a direction of relative variance 1e-12 is resolved to ~1e-10 (eigh of C would resolve it to 1e-4).
+    Genuinely null directions stay null (pseudo power)."""
     if a >= 1.0:
-        return Z
+        return Z, 1.0
     N = Z.shape[0]
-    C = Z.conj().T @ Z / (N - 1)
-    return Z @ R.frac_power_psd(C, (a - 1.0) / 2.0)
+    _, sv, Vh = np.linalg.svd(Z, full_matrices=False)
+    keep = sv > max(sv[0], 1e-300) * NULL_CUT
+    V = Vh.conj().T[:, keep]
+    lam = sv[keep] ** 2 / (N - 1)
+    T = (V * lam ** ((a - 1.0) / 2.0)) @ V.conj().T
+    return Z @ T, float(lam[0] / lam[-1])
 
 
 def _orth_basis(Z):
     U, s, _ = np.linalg.svd(Z, full_matrices=False)
-    keep = s > max(s[0], 1e-300) * 1e-10
+    keep = s > max(s[0], 1e-300) * NULL_CUT
     return U[:, keep]
 
 
@@ -252,8 +298,8 @@ def reference(X, Y, alpha, pca, hilbert, padding):
         Zx, Zy = _analytic(Zx, padding), _analytic(Zy, padding)
         Fx_red, Fy_red = _analytic(Fx_red, padding), _analytic(Fy_red, padding)
         Fx_full, Fy_full = _analytic(Fx_full, padding), _analytic(Fy_full, padding)
-    Wx = _whiten_ref(Zx, alpha[0])
-    Wy = _whiten_ref(Zy, alpha[1])
+    Wx, cx = _whiten_ref(Zx, alpha[0])
+    Wy, cy = _whiten_ref(Zy, alpha[1])
     Cw = Wx.conj().T @ Wy / (N - 1)
     sref = np.linalg.svd(Cw, compute_uv=False)
     C_red = Zx.conj().T @ Zy / (N - 1)  # un-whitened cross-covariance of the decomposed fields
@@ -262,7 +308,7 @@ def reference(X, Y, alpha, pca, hilbert, padding):
     rho = np.linalg.svd(_orth_basis(Zx).conj().T @ _orth_basis(Zy), compute_uv=False)
     return dict(
         N=N, sref=sref, fro2_red=float(np.sum(np.abs(C_red) ** 2)), fro2_full=float(np.sum(np.abs(C_full) ** 2)),
-        rho=np.clip(rho, 0, 1), Fx=[Fx_red, Fx_full], Fy=[Fy_red, Fy_full], rankC=int(np.sum(sref > sref[0] * 1e-9)),
+        cond=max(cx, cy), rho=np.clip(rho, 0, 1), Fx=[Fx_red, Fx_full], Fy=[Fy_red, Fy_full], rankC=int(np.sum(sref > sref[0] * 1e-9)),
     )
 
 
@@ -275,6 +321,10 @@ def build_input(case, seed):
     n, p1, p2 = case["shape"]
     X = D.make_matrix(n, p1, case["spec"], 1.0, case["cplx"], seed, salt=1)
     Y = D.make_matrix(n, p2, case["spec"], 1.0, case["cplx"], seed, salt=2)
+    ill = case.get("illscale")
+    if ill:
+        M = X if ill[0] == "X" else Y
+        M[:, M.shape[1] - int(ill[2]):] *= 10.0 ** (-int(ill[1]))  # mean row included: it is the variable that is small
     t = np.arange(n) * 2 + 1
     dx = xr.DataArray(X, dims=("time", "x"), coords={"time": t, "x": np.arange(p1) * 10}, name="left")
     dy = xr.DataArray(Y, dims=("time", "y"), coords={"time": y_labels(t, case.get("labels", "same")), "y": np.arange(p2) * 5 + 100}, name="right")
@@ -338,6 +388,9 @@ def run_case(case, seed):
     trunc = any(isinstance(p, int) for p in _pca_pair(case["pca"]))
     feats = dict(pca=case["pca"] != "off", cplx=bool(case["cplx"] or hilb))
     lbl = {} if case.get("labels", "same") == "same" else {"labels": case["labels"]}  # only where it can matter: old signatures stay
+    if case.get("illscale"):
+        lbl["illscale"] = "1e-%d" % int(case["illscale"][1])
+    errs = {}
     V = []
     done = []
 
@@ -374,6 +427,9 @@ def run_case(case, seed):
     sref = ref["sref"]
     exact = case["solver"] == "full" and not trunc
     tol = 1e-9 if exact else 1e-7
+    # a whitened field is a data matrix of condition sqrt(cond(C)): rounding is amplified by that much and no more
+    # (measured on the ill-scaled fields: <= 3e-10 at cond(C) = 1e12). Below 1e7 this changes nothing.
+    tol = max(tol, 100 * EPS * float(np.sqrt(ref["cond"])))
 
     # (a) non-negative, descending, real
     if np.iscomplexobj(s) and np.abs(s.imag).max() > 0:
@@ -391,6 +447,7 @@ def run_case(case, seed):
     # (b) cross-covariance of the two score sets is diag(s)
     G = S1.conj().T @ S2 / (N - 1)
     e = np.abs(G - np.diag(s)).max() / max(s[0], sref[0], 1e-300)
+    errs["b"] = float(e)
     if not e <= tol:
         off = np.abs(G - np.diag(np.diag(G))).max() / max(s[0], 1e-300)
         bad("scores_crosscov_diag", "|S1^H S2/(N-1) - diag(s)|/s1 = %.3e (off-diagonal part %.3e); diag %s vs s %s" % (e, off, np.diag(G)[:4], s[:4]),
@@ -404,6 +461,7 @@ def run_case(case, seed):
     if ok.any():
         q = s[ok] / sig[ok]
         ratio = float(q[0])
+        errs["c"] = float(np.max(np.abs(q - q[0])) / abs(q[0]))
         if not np.max(np.abs(q - q[0])) <= 10 * tol * abs(q[0]):
             bad("sv_proportional", "reported/reference ratio differs between modes: %s (reported %s, reference %s)" % (q, s, sig), mca=is_mca)
         elif is_mca and not abs(q[0] - 1.0) <= 10 * tol:
@@ -433,6 +491,7 @@ def run_case(case, seed):
         pc = np.diag(pearson(S1, S2))
         rho = ref["rho"][:k]
         e = np.abs(pc - rho).max()
+        errs["e"] = float(e)
         if not e <= 100 * tol:
             bad("cca_score_correlation", "corr(scores) %s vs canonical correlations %s" % (pc[:4], rho[:4]))
         done.append("e")
@@ -450,6 +509,7 @@ def run_case(case, seed):
         if arg is None:
             bad("corr_shape", "%s has shape %s" % (which, rep.shape), group=group)
             return
+        errs["f"] = max(errs.get("f", 0.0), float(e))
         mx = float(np.abs(rep).max()) if rep.size else 0.0
         d = np.diag(rep) if self_diag else np.ones(1)
         if not e <= 100 * tol:
@@ -479,7 +539,7 @@ def run_case(case, seed):
         violations=V,
         outcome="violation" if V else "ok",
         nontrivial=bool(S1.size and S2.size and "c" in done and "f" in done),
-        info=dict(ratio=ratio, N=N, alpha=alpha, clauses="".join(done), s1=float(sref[0]), labels=case.get("labels", "same")),
+        info=dict(ratio=ratio, N=N, alpha=alpha, clauses="".join(done), s1=float(sref[0]), labels=case.get("labels", "same"), cond=ref["cond"], errs=errs),
     )
 
 
@@ -530,6 +590,9 @@ def vacuity(outcomes, results, tier):
     lab_seen = set((r.get("info") or {}).get("labels") for r in results if r.get("nontrivial"))
     if not set(LABELS) <= lab_seen:
         return "sample labellings of Y never compared: %s" % sorted(set(LABELS) - lab_seen)
+    ill_seen = set(r["info"].get("cond", 0) > 1e11 for r in results if r.get("nontrivial") and r.get("info"))
+    if True not in ill_seen:
+        return "no whitened field of condition > 1e11 was compared with the reference (ill-scaled dimension did not vary)"
     if len(alphas) < 16:
         return "only %d of the 16 whitening degrees were compared with the reference" % len(alphas)
     if n < 0.9 * len(results):
